@@ -52,7 +52,7 @@ theorem viewVals_length (s : State) (v : View) : (s.viewVals v).length = v.len :
 theorem sliceView_ok (s : State) (b : Nat) (hb : b < s.blocks.length) (i j : Option Int) (st : Int) (hst : st ≠ 0) :
     ViewOK s { blk := b, off := (sliceIdx (s.read b).length i j st).1, step := st,
                len := (sliceIdx (s.read b).length i j st).2 } :=
-  ⟨hb, hst, fun k hk => slice_in_bounds (s.read b).length i j st hst k hk⟩
+  ⟨hb, hst, by show 0 < 8; omega, fun k hk => slice_in_bounds (s.read b).length i j st hst k hk⟩
 
 theorem foldl_set_length {α : Type} (l : List α) (idx : List Nat) (pos : Nat → Nat) (val : Nat → α) :
     (idx.foldl (fun m j => m.set (pos j) (val j)) l).length = l.length := by
@@ -66,12 +66,25 @@ theorem stridedMem_length (st : Int) (L : List Int) : (stridedMem st L).1.length
   rw [foldl_set_length]
   simp
 
+/-- entries `j < len` of a layout with stride `±(k+1)` stay inside `max 1 (len*(k+1))` cells -/
+theorem stride_bounds (k len j : Nat) (hj : j < len) :
+    (j : Int) * ((k + 1 : Nat) : Int) < ((max 1 (len * (k + 1)) : Nat) : Int) ∧
+    0 ≤ ((max 1 (len * (k + 1)) : Nat) : Int) - 1 + (j : Int) * (-((k + 1 : Nat) : Int)) := by
+  have h1 : (j + 1) * (k + 1) ≤ len * (k + 1) := Nat.mul_le_mul_right _ (by omega)
+  rw [Nat.succ_mul] at h1
+  have h2 : (j : Int) * ((k + 1 : Nat) : Int) = ((j * (k + 1) : Nat) : Int) := by rw [Int.natCast_mul]
+  have h3 : (j : Int) * (-((k + 1 : Nat) : Int)) = -((j * (k + 1) : Nat) : Int) := by rw [Int.mul_neg, h2]
+  rw [h2, h3]
+  generalize j * (k + 1) = P at *
+  generalize len * (k + 1) = Q at *
+  omega
+
 /-- the strided layouts of fresh buffer objects stay inside their memory -/
 theorem stridedMem_bounds (lay : Lay) (A : List Int) :
     lay.stride ≠ 0 ∧ ∀ j, j < A.length →
       0 ≤ (stridedMem lay.stride A).2 + (j : Int) * lay.stride ∧
       (stridedMem lay.stride A).2 + (j : Int) * lay.stride < ((stridedMem lay.stride A).1.length : Int) := by
-  refine ⟨by cases lay <;> simp [Lay.stride], ?_⟩
+  refine ⟨by cases lay <;> simp [Lay.stride] <;> (split <;> omega), ?_⟩
   intro j hj
   rw [stridedMem_length]
   have n1 : Int.natAbs 1 = 1 := rfl
@@ -79,7 +92,77 @@ theorem stridedMem_bounds (lay : Lay) (A : List Int) :
   have n3 : Int.natAbs 3 = 3 := rfl
   have m1 : Int.natAbs (-1) = 1 := rfl
   have m2 : Int.natAbs (-2) = 2 := rfl
-  cases lay <;> simp only [Lay.stride, stridedMem, n1, n2, n3, m1, m2] <;> omega
+  cases lay with
+  | q R fo neg k =>
+    have hb := stride_bounds k A.length j hj
+    cases neg
+    · simp only [Lay.stride, stridedMem, Bool.false_eq_true, if_false, Int.natAbs_natCast]
+      have hnn : ¬ (((k + 1 : Nat) : Int) < 0) := by omega
+      rw [if_neg hnn]
+      have := hb.1
+      have h0 : 0 ≤ (j : Int) * ((k + 1 : Nat) : Int) := Int.mul_nonneg (by omega) (by omega)
+      omega
+    · simp only [Lay.stride, stridedMem, if_true, Int.natAbs_neg, Int.natAbs_natCast]
+      have hneg : -((k + 1 : Nat) : Int) < 0 := by omega
+      rw [if_pos hneg]
+      have := hb.2
+      have h0 : (j : Int) * (-((k + 1 : Nat) : Int)) ≤ 0 := by
+        rw [Int.mul_neg]
+        have : 0 ≤ (j : Int) * ((k + 1 : Nat) : Int) := Int.mul_nonneg (by omega) (by omega)
+        omega
+      omega
+  | _ => simp only [Lay.stride, stridedMem, n1, n2, n3, m1, m2] <;> omega
+
+/-- a fresh buffer object holds the numbers it was built from at the cells its view enumerates -/
+theorem stridedMem_get (lay : Lay) (A : List Int) (j : Nat) (hj : j < A.length) :
+    ((stridedMem lay.stride A).1)[((stridedMem lay.stride A).2 + (j : Int) * lay.stride).toNat]? = some (A.getD j 0) := by
+  have hb := stridedMem_bounds lay A
+  have hmem : (stridedMem lay.stride A).1
+      = writeCells (List.replicate (max 1 (A.length * lay.stride.natAbs)) 77)
+          (fun j => ((stridedMem lay.stride A).2 + (j : Int) * lay.stride).toNat) A A.length := rfl
+  have hlen : (List.replicate (max 1 (A.length * lay.stride.natAbs)) (77 : Int)).length
+      = (stridedMem lay.stride A).1.length := by rw [hmem, writeCells_length]
+  rw [hmem]
+  refine writeCells_get_pos _ (fun j => ((stridedMem lay.stride A).2 + (j : Int) * lay.stride).toNat) A A.length ?_ ?_ j hj
+  · intro p q hp hq he
+    have h1 := hb.2 p hp
+    have h2 := hb.2 q hq
+    have he' : (p : Int) * lay.stride = (q : Int) * lay.stride := by omega
+    have := Int.eq_of_mul_eq_mul_right hb.1 he'
+    omega
+  · intro p hp
+    have h1 := hb.2 p hp
+    rw [hlen]
+    omega
+
+/-- … so the new array register shows exactly those numbers (read back through the byte addresses of its entries) -/
+theorem stridedMem_shows (lay : Lay) (A : List Int) (s : State) (a dt : Nat) (hr : 0 < lay.memLay.rsz) :
+    ((s.alloc (stridedMem lay.stride A).1).1.bindA a
+        { blk := s.blocks.length, off := (stridedMem lay.stride A).2, step := lay.stride, len := A.length, dt := dt,
+          lay := lay.memLay }).viewVals
+      { blk := s.blocks.length, off := (stridedMem lay.stride A).2, step := lay.stride, len := A.length, dt := dt,
+        lay := lay.memLay } = A := by
+  unfold State.viewVals
+  simp only [bindA_read]
+  have hrd : (s.alloc (stridedMem lay.stride A).1).1.read s.blocks.length = (stridedMem lay.stride A).1 :=
+    read_alloc_new s _
+  rw [hrd]
+  apply List.ext_getElem
+  · simp
+  · intro j h1 h2
+    simp only [List.getElem_map, List.getElem_range]
+    rw [View.pos_eq _ hr j, List.getD_eq_getElem?_getD, stridedMem_get lay A j h2]
+    simp [List.getD_eq_getElem?_getD, List.getElem?_eq_getElem h2]
+
+/-- the records of every layout have a size once a field fits into them -/
+theorem memLay_rsz_pos (lay : Lay) (dt : Nat) (h : lay.fits dt = true) : 0 < lay.memLay.rsz := by
+  cases lay with
+  | q R fo neg k =>
+    simp only [Lay.fits, decide_eq_true_eq] at h
+    simp only [Lay.memLay]
+    have : 0 < dtSize dt := by unfold dtSize; split <;> omega
+    omega
+  | _ => simp [Lay.memLay]
 
 /-- unfold the plain operations down to `zipWith` / `map` and close the length side condition -/
 macro "fvlen" h:ident : tactic => `(tactic| (
@@ -99,7 +182,7 @@ theorem vecEff_ok (kd : Kind) (hk : kd.isVec = true) (s : State) (h : Inv kd s) 
     all_goals try trivial
     all_goals (intro n hn; cases hn)
     all_goals first
-      | exact constructBuf_length _ _ _ _ _
+      | exact constructBuf_length _ _ _ _
       | exact constructLoop_length _ _
   | copy x y =>
     simp only [vecEff]
@@ -323,7 +406,10 @@ theorem vecEff_ok (kd : Kind) (hk : kd.isVec = true) (s : State) (h : Inv kd s) 
     simp only [vecEff]
     repeat' split
     all_goals try trivial
-    all_goals exact stridedMem_bounds lay _
+    all_goals (
+      rename_i hfit _ _ _ _
+      have hsb := stridedMem_bounds lay (s.viewVals (by assumption))
+      exact ⟨hsb.1, memLay_rsz_pos lay dt (by simpa using hfit), hsb.2⟩)
   | nvscale x k =>
     simp only [vecEff]
     repeat' split
